@@ -403,12 +403,33 @@ package pokerface
 //@             && g.gs.Status.CurrentRoundPot == old(g.gs.Status.CurrentRoundPot) && g.gs.Status.Round == old(g.gs.Status.Round)
 //@   loop 1 invariant 0 <= g.gs.Status.CurrentPlayer && g.gs.Status.CurrentPlayer < len(g.gs.Players) && OTHERSIDLE(g)
 
+// ---------------------------------------------------------------------------
+// power.go: the reported hand (C10). The enumeration of admissible selections and the evaluator are covered by
+// stand-ins (see combination/zz_contracts_verif.go); proved here: the candidate list is sorted by strength so
+// that the first entry is a maximum, and the report is written from that one entry.
+// ---------------------------------------------------------------------------
+
+//@ func (*game).CalculateGameResults(g) (err)
+//@   inline
+//@   loop 1 invariant settlement.PLAYERSOK(r)
+//@   loop 2 invariant settlement.PLAYERSOK(r)
+
+//@ func (*game).GetAllPowersByPlayer(g, p) (res)
+//@   props C10
+//@   requires g != nil && g.gs != nil && p != nil
+//@   modifies nothing
+//@   allocs combination.PowerState, combination.Card, combination.Element, elems(*combination.Card), elems(*combination.Element), elems([]string), elems(string), elems(*combination.PowerState)
+//@   ensures len(res) >= 1 && (forall k :: 0 <= k && k < len(res) ==> res[k] != nil)
+//@   ensures forall k, j :: 0 <= k && k < len(res) && 0 <= j && j < len(res[k].Cards) ==> res[k].Cards[j] != nil
+//@   ensures [C10] forall a, b :: 0 <= a && a < b && b < len(res) ==> res[a].Score >= res[b].Score
+//@   loop 1 invariant len(powers) == rangeindex + 1 && (forall k :: 0 <= k && k < len(powers) ==> powers[k] != nil && fresh(powers[k]))
+//@   loop 1 invariant forall k, j :: 0 <= k && k < len(powers) && 0 <= j && j < len(powers[k].Cards) ==> powers[k].Cards[j] != nil
+
 //@ func (*game).UpdateCombinationOfAllPlayers(g) (err)
-//@   trusted
 //@   props C10
 //@   requires WFG(g)
 //@   modifies CombinationInfo
-//@   allocs elems(string)
+//@   allocs combination.PowerState, combination.Card, combination.Element, elems(*combination.Card), elems(*combination.Element), elems([]string), elems(string), elems(*combination.PowerState)
 //@   ensures err == nil
 
 // ---------------------------------------------------------------------------
